@@ -4,6 +4,7 @@
   supported by execution only: SWC's printer and parser are not modelled.)
 -/
 import VueJsx.Visitor
+import VueJsx.Props.C20
 import VueJsx.Props.C15
 
 namespace VueJsx
@@ -1391,5 +1392,842 @@ theorem trChildList_ok (o : Opts) (env : Env) : ∀ (cs : List Node) (st : St), 
       exact ⟨hR.1, panic_ok _ _ hR.2⟩
 termination_by cs => 2 * sizeOf cs
 end
+
+/-! ## From elements to whole trees: the traversal hands every element to the lowering in prepared form -/
+
+mutual
+/-- a well-formed tree at an ordinary (expression / statement / declaration) position: JSX occurs only as complete
+    elements and fragments of the shape the parser produces -/
+def WfE : Node → Bool
+  | .mk .jsxElement _ [.mk .jsxOpening _ [nameN, .mk .list _ attrs, ta], .mk .list _ children, cl] =>
+    TagOk nameN && Inert nameN && Inert ta && Inert cl && WfAs attrs && WfKs children
+  | .mk .jsxFragment _ [op, .mk .list _ children, cl] => Inert op && Inert cl && WfKs children
+  | .mk k _ ks => !isJsxSyntax k && WfEs ks
+def WfEs : List Node → Bool
+  | [] => true
+  | n :: ns => WfE n && WfEs ns
+def WfAs : List Node → Bool
+  | [] => true
+  | a :: rest => WfA a && WfAs rest
+/-- an attribute: `name`, `name="s"`, `name={e}`, `name=<el/>`, or `{...e}` -/
+def WfA : Node → Bool
+  | .mk .jsxAttr _ [name, v] => Inert name && WfV v
+  | .mk .spreadElement _ [e] => WfE e
+  | _ => false
+def WfV : Node → Bool
+  | .mk .none _ [] => true
+  | .mk .str _ [] => true
+  | .mk .jsxExprContainer _ [e] => WfE e
+  | .mk .jsxElement as ks => WfE (.mk .jsxElement as ks)
+  | .mk .jsxFragment as ks => WfE (.mk .jsxFragment as ks)
+  | _ => false
+def WfKs : List Node → Bool
+  | [] => true
+  | c :: rest => WfK c && WfKs rest
+/-- a JSX child: text, `{e}`, `{}`, `{...e}`, an element or a fragment -/
+def WfK : Node → Bool
+  | .mk .jsxText _ [] => true
+  | .mk .jsxExprContainer _ [e] => (match e with | .mk .jsxEmpty _ [] => true | e => WfE e)
+  | .mk .jsxSpreadChild _ [e] => WfE e
+  | .mk .jsxElement as ks => WfE (.mk .jsxElement as ks)
+  | .mk .jsxFragment as ks => WfE (.mk .jsxFragment as ks)
+  | _ => false
+end
+
+
+theorem drainInto_ok (items : List Node) (st : St) (hi : NoJsxL items = true) (hst : StOk st) :
+    NoJsxL (drainInto items st).1 = true ∧ StOk (drainInto items st).2 := by
+  unfold drainInto
+  simp only
+  by_cases hc : (!st.injectingConsts.isEmpty) = true <;> by_cases hv : (!st.injectingVars.isEmpty) = true <;>
+    simp only [hc, hv, if_true, Bool.false_eq_true, if_false]
+  · exact ⟨by simp [hi, hst.vars, hst.consts], ⟨hst.imports, hst.ton, hst.slotH, rfl, rfl⟩⟩
+  · exact ⟨by simp [hi, hst.consts], ⟨hst.imports, hst.ton, hst.slotH, hst.vars, rfl⟩⟩
+  · exact ⟨by simp [hi, hst.vars], ⟨hst.imports, hst.ton, hst.slotH, rfl, hst.consts⟩⟩
+  · exact ⟨hi, hst⟩
+
+theorem clearPending_ok (st : St) (hst : StOk st) : StOk st.clearPending :=
+  ⟨hst.imports, hst.ton, hst.slotH, rfl, rfl⟩
+
+theorem restore_ok (st' : St) (c v : List Node) (hst : StOk st') (hc : NoJsxL c = true) (hv : NoJsxL v = true) :
+    StOk ({ st' with injectingConsts := c, injectingVars := v } : St) :=
+  ⟨hst.imports, hst.ton, hst.slotH, hv, hc⟩
+
+theorem drainArrow_ok (n : Node) (st : St) (hn : NoJsx n = true) (hst : StOk st) :
+    NoJsx (drainArrow n st).1 = true ∧ StOk (drainArrow n st).2 := by
+  unfold drainArrow
+  split
+  · rename_i as params body tp rt
+    have hparts : NoJsx params = true ∧ NoJsx body = true ∧ NoJsx tp = true ∧ NoJsx rt = true := by
+      simpa [NoJsx, NoJsxL, isJsxSyntax, and_assoc] using hn
+    obtain ⟨hp, hb, htp, hrt⟩ := hparts
+    split
+    · split
+      · exact ⟨hn, hst⟩
+      · simp only
+        by_cases hc : (!st.injectingConsts.isEmpty) = true <;> by_cases hv : (!st.injectingVars.isEmpty) = true <;>
+          simp only [hc, hv, if_true, Bool.false_eq_true, if_false]
+        · exact ⟨by simp [NoJsx, NoJsxL, isJsxSyntax, hp, hb, htp, hrt, hst.vars, hst.consts], ⟨hst.imports, hst.ton, hst.slotH, rfl, rfl⟩⟩
+        · exact ⟨by simp [NoJsx, NoJsxL, isJsxSyntax, hp, hb, htp, hrt, hst.consts], ⟨hst.imports, hst.ton, hst.slotH, hst.vars, rfl⟩⟩
+        · exact ⟨by simp [NoJsx, NoJsxL, isJsxSyntax, hp, hb, htp, hrt, hst.vars], ⟨hst.imports, hst.ton, hst.slotH, rfl, hst.consts⟩⟩
+        · exact ⟨by simp [NoJsx, NoJsxL, isJsxSyntax, hp, hb, htp, hrt], hst⟩
+    · exact ⟨hn, hst⟩
+  · exact ⟨hn, hst⟩
+
+theorem importHook_ok (n : Node) (st : St) (hst : StOk st) : StOk (importHook n st) := by
+  unfold importHook
+  split
+  · split
+    · exact hst
+    · split
+      · exact ⟨hst.imports, hst.ton, hst.slotH, hst.vars, hst.consts⟩
+      · exact hst
+  · exact hst
+
+
+theorem PrepAttrs_iff (l : List Node) : PrepAttrs l = true ↔ ∀ x ∈ l, PrepAttr x = true := by
+  induction l with
+  | nil => simp [PrepAttrs]
+  | cons a r ih => simp [PrepAttrs, ih]
+
+theorem PrepAttrs_append (a b : List Node) : PrepAttrs (a ++ b) = (PrepAttrs a && PrepAttrs b) := by
+  induction a with
+  | nil => simp [PrepAttrs]
+  | cons x r ih => simp [PrepAttrs, ih, Bool.and_assoc]
+
+theorem decoupleVModels_Prep (elems : List Node) (h : NoJsxL elems = true) : PrepAttrs (decoupleVModels elems) = true := by
+  rw [PrepAttrs_iff]
+  intro x hx
+  unfold decoupleVModels at hx
+  simp only [List.mem_filterMap] at hx
+  obtain ⟨el, hel, hsome⟩ := hx
+  have hne : NoJsx el = true := (NoJsxL_iff elems).mp h el hel
+  split at hsome
+  · rename_i as0 as1 as2 inner
+    have hinner : NoJsxL inner = true := by simpa [NoJsx, NoJsxL, isJsxSyntax] using hne
+    have htd : NoJsxL (inner.take 1 ++ inner.drop 2) = true := by
+      rw [NoJsxL_iff] at hinner ⊢
+      intro y hy
+      simp only [List.mem_append] at hy
+      rcases hy with hy | hy
+      · exact hinner y (List.mem_of_mem_take hy)
+      · exact hinner y (List.mem_of_mem_drop hy)
+    simp only [Option.some.injEq] at hsome
+    subst hsome
+    -- the generated attribute: `v-model` or `v-model:arg`, value `{[...]}`
+    have hd1 : isDirectiveAttrName (attrNameOf (nIdentName "v-model")) = true := by decide
+    have hd2 : ∀ a : String, isDirectiveAttrName (attrNameOf (.mk .jsxNsName [] [nIdentName "v-model", nIdentName a])) = true := by
+      intro a
+      simp only [attrNameOf, isDirectiveAttrName, identName, nIdentName, nIdent]
+      decide
+    split <;> simp_all [PrepAttr, ValOk, Option.isSome]
+  · simp at hsome
+
+
+theorem PrepAttrs_take (l : List Node) (n : Nat) (h : PrepAttrs l = true) : PrepAttrs (l.take n) = true := by
+  rw [PrepAttrs_iff] at h ⊢; intro x hx; exact h x (List.mem_of_mem_take hx)
+theorem PrepAttrs_drop (l : List Node) (n : Nat) (h : PrepAttrs l = true) : PrepAttrs (l.drop n) = true := by
+  rw [PrepAttrs_iff] at h ⊢; intro x hx; exact h x (List.mem_of_mem_drop hx)
+
+theorem findVModels_spec (attrs : List Node) (i idx : Nat) (h : findVModels attrs i = some idx) :
+    ∃ j as ias iks v, idx = i + j ∧ attrs[j]? = some (.mk .jsxAttr as [.mk .ident ("v-models" :: ias) iks, v]) := by
+  fun_induction findVModels attrs i with
+  | case1 => simp at h
+  | case2 as n ias iks v rest i hn =>
+    have hn' : n = "v-models" := by simpa using hn
+    subst hn'
+    simp only [Option.some.injEq] at h
+    exact ⟨0, as, ias, iks, v, by omega, by simp⟩
+  | case3 as n ias iks v rest i hn ih =>
+    obtain ⟨j, as', ias', iks', v', hj, hg⟩ := ih h
+    exact ⟨j + 1, as', ias', iks', v', by omega, by simpa using hg⟩
+  | case4 x rest i hne ih =>
+    obtain ⟨j, as', ias', iks', v', hj, hg⟩ := ih h
+    exact ⟨j + 1, as', ias', iks', v', by omega, by simpa using hg⟩
+
+/-- `visit_mut_jsx_opening_element`: the tag is untouched and the attributes stay prepared (the generated `v-model`
+    attributes are directives whose array value is made of JSX-free parts) -/
+theorem openingHook_ok (as las : List String) (nameN ta : Node) (attrs : List Node) (st : St)
+    (hp : PrepAttrs attrs = true) (hst : StOk st) :
+    ∃ attrs', (openingHook (.mk .jsxOpening as [nameN, .mk .list las attrs, ta]) st).1 = .mk .jsxOpening as [nameN, .mk .list las attrs', ta]
+      ∧ PrepAttrs attrs' = true ∧ StOk (openingHook (.mk .jsxOpening as [nameN, .mk .list las attrs, ta]) st).2 := by
+  simp only [openingHook]
+  split
+  · exact ⟨attrs, rfl, hp, hst⟩
+  · rename_i idx hf
+    obtain ⟨j, as', ias, iks, v, hj, hg⟩ := findVModels_spec attrs 0 idx hf
+    have hidx : idx = j := by omega
+    subst hidx
+    have hb := PrepAttrs_take attrs idx hp
+    have ha := PrepAttrs_drop attrs (idx + 1) hp
+    simp only [hg]
+    -- the value of the `v-models` attribute is admissible (it is a directive)
+    have hv : ValOk v = true := by
+      have hm : Node.mk .jsxAttr as' [.mk .ident ("v-models" :: ias) iks, v] ∈ attrs := List.mem_of_getElem? hg
+      have := (PrepAttrs_iff attrs).mp hp _ hm
+      have hd : isDirectiveAttrName (attrNameOf (.mk .ident ("v-models" :: ias) iks)) = true := by
+        simp only [attrNameOf, isDirectiveAttrName]; decide
+      unfold PrepAttr at this
+      simp only [hd, if_true] at this
+      exact this
+    split
+    · exact ⟨_, rfl, by simp [PrepAttrs_append, hb, ha], err_ok _ _ hst⟩
+    · rename_i e he
+      have hne := containerExpr_NoJsx v e hv he
+      split
+      · exact ⟨_, rfl, by simp [PrepAttrs_append, hb, ha], err_ok _ _ hst⟩
+      · rename_i elems hel
+        have hels := arrayElems_NoJsx e elems hne hel
+        exact ⟨_, rfl, by simp [PrepAttrs_append, hb, ha, decoupleVModels_Prep elems hels], hst⟩
+
+
+/-! ### the hooks on a node that is not JSX -/
+
+theorem kindHook_plain (o : Opts) (env : Env) (hrt : o.resolveType = false) (k : K) (as : List String) (ks : List Node) (st : St)
+    (hk : k ≠ .jsxOpening) (hst : StOk st) :
+    (kindHook o env (.mk k as ks) st).1 = .mk k as ks ∧ StOk (kindHook o env (.mk k as ks) st).2 := by
+  unfold kindHook
+  split
+  · rename_i heq; injection heq with h1; exact absurd h1 hk
+  · exact ⟨rfl, importHook_ok _ _ hst⟩
+  · simp [callHook, hrt, hst]
+  · simp [declaratorHook, hrt, hst]
+  · exact ⟨rfl, hst⟩
+
+theorem exprHook_plain (o : Opts) (env : Env) (pos : Pos) (k : K) (as : List String) (ks : List Node) (st : St)
+    (hk : pos ≠ .normal ∨ (k ≠ .jsxElement ∧ k ≠ .jsxFragment)) (hst : StOk st) :
+    (exprHook o env pos (.mk k as ks) st).1 = .mk k as ks ∧ StOk (exprHook o env pos (.mk k as ks) st).2 := by
+  unfold exprHook
+  split
+  · exact ⟨rfl, hst⟩
+  · rename_i hpos
+    have hpos' : pos = .normal := by simpa using hpos
+    have hk' : k ≠ .jsxElement ∧ k ≠ .jsxFragment := by
+      rcases hk with h | h
+      · exact absurd hpos' h
+      · exact h
+    split
+    · rename_i heq; injection heq with h1; exact absurd h1 hk'.1
+    · rename_i heq; injection heq with h1; exact absurd h1 hk'.2
+    · exact ⟨rfl, ⟨hst.imports, hst.ton, hst.slotH, hst.vars, hst.consts⟩⟩
+    · exact ⟨rfl, hst⟩
+
+/-- unfolding `visit` on a node that is neither a statement list nor an arrow function -/
+theorem visit_generic (o : Opts) (env : Env) (k : K) (as : List String) (ks : List Node) (pos : Pos) (st : St)
+    (hs : k ≠ .stmts) (ha : k ≠ .arrow) :
+    visit o env (.mk k as ks) pos st =
+      exprHook o env pos (kindHook o env (.mk k as (visitKids o env k pos 0 ks st).1) (visitKids o env k pos 0 ks st).2).1
+        (kindHook o env (.mk k as (visitKids o env k pos 0 ks st).1) (visitKids o env k pos 0 ks st).2).2 := by
+  unfold visit
+  split
+  · exact absurd rfl hs
+  · exact absurd rfl ha
+  · rfl
+
+
+/-! ### the JSX skeleton, given the induction hypotheses for attributes and children -/
+
+theorem visit_list_normal (o : Opts) (env : Env) (hrt : o.resolveType = false) (las : List String) (xs : List Node) (st : St)
+    (P : List Node → Prop)
+    (ih : P (visitKids o env .list .normal 0 xs st).1 ∧ StOk (visitKids o env .list .normal 0 xs st).2) :
+    ∃ xs', (visit o env (.mk .list las xs) .normal st).1 = .mk .list las xs' ∧ P xs' ∧ StOk (visit o env (.mk .list las xs) .normal st).2 := by
+  rw [visit_generic o env .list las xs .normal st (by decide) (by decide)]
+  have hk := kindHook_plain o env hrt .list las (visitKids o env .list .normal 0 xs st).1 (visitKids o env .list .normal 0 xs st).2 (by decide) ih.2
+  rw [show kindHook o env (.mk .list las (visitKids o env .list .normal 0 xs st).1) (visitKids o env .list .normal 0 xs st).2
+        = (.mk .list las (visitKids o env .list .normal 0 xs st).1, (kindHook o env (.mk .list las (visitKids o env .list .normal 0 xs st).1) (visitKids o env .list .normal 0 xs st).2).2) from Prod.ext hk.1 rfl]
+  have he := exprHook_plain o env .normal .list las (visitKids o env .list .normal 0 xs st).1 _ (Or.inr ⟨by decide, by decide⟩) hk.2
+  exact ⟨_, he.1, ih.1, he.2⟩
+
+theorem visit_list_childList (o : Opts) (env : Env) (hrt : o.resolveType = false) (las : List String) (xs : List Node) (st : St)
+    (ih : PrepKids (visitKids o env .list .childList 0 xs st).1 = true ∧ StOk (visitKids o env .list .childList 0 xs st).2) :
+    ∃ xs', (visit o env (.mk .list las xs) .childList st).1 = .mk .list las xs' ∧ PrepKids xs' = true
+      ∧ StOk (visit o env (.mk .list las xs) .childList st).2 := by
+  rw [visit_generic o env .list las xs .childList st (by decide) (by decide)]
+  have hk := kindHook_plain o env hrt .list las (visitKids o env .list .childList 0 xs st).1 (visitKids o env .list .childList 0 xs st).2 (by decide) ih.2
+  rw [show kindHook o env (.mk .list las (visitKids o env .list .childList 0 xs st).1) (visitKids o env .list .childList 0 xs st).2
+        = (.mk .list las (visitKids o env .list .childList 0 xs st).1, (kindHook o env (.mk .list las (visitKids o env .list .childList 0 xs st).1) (visitKids o env .list .childList 0 xs st).2).2) from Prod.ext hk.1 rfl]
+  have he := exprHook_plain o env .childList .list las (visitKids o env .list .childList 0 xs st).1 _ (Or.inl (by decide)) hk.2
+  exact ⟨_, he.1, ih.1, he.2⟩
+
+/-- the opening element: tag untouched, attributes prepared -/
+theorem visit_opening (o : Opts) (env : Env) (hrt : o.resolveType = false) (oas las : List String) (nameN ta : Node) (attrs : List Node) (st : St)
+    (hn : Inert nameN = true) (hta : Inert ta = true)
+    (ih : ∀ s, StOk s → PrepAttrs (visitKids o env .list .normal 0 attrs s).1 = true ∧ StOk (visitKids o env .list .normal 0 attrs s).2)
+    (hst : StOk st) :
+    ∃ attrs', (visit o env (.mk .jsxOpening oas [nameN, .mk .list las attrs, ta]) .normal st).1 = .mk .jsxOpening oas [nameN, .mk .list las attrs', ta]
+      ∧ PrepAttrs attrs' = true ∧ StOk (visit o env (.mk .jsxOpening oas [nameN, .mk .list las attrs, ta]) .normal st).2 := by
+  rw [visit_generic o env .jsxOpening oas _ .normal st (by decide) (by decide)]
+  -- the three children
+  have h0 : visit o env nameN (kidPos .jsxOpening .normal 0) st = (nameN, st) := visit_inert o env nameN _ st hn
+  obtain ⟨attrs1, hl1, hl2, hl3⟩ := visit_list_normal o env hrt las attrs st (fun xs => PrepAttrs xs = true) (ih st hst)
+  have hkids : visitKids o env .jsxOpening .normal 0 [nameN, .mk .list las attrs, ta] st
+      = ([nameN, .mk .list las attrs1, ta], (visit o env (.mk .list las attrs) .normal st).2) := by
+    simp only [visitKids, h0]
+    have hp1 : kidPos .jsxOpening .normal (0 + 1) = .normal := by decide
+    rw [hp1]
+    have h2 : visit o env ta (kidPos .jsxOpening .normal (0 + 1 + 1)) (visit o env (.mk .list las attrs) .normal st).2
+        = (ta, (visit o env (.mk .list las attrs) .normal st).2) := visit_inert o env ta _ _ hta
+    rw [h2, ← hl1]
+  rw [hkids]
+  simp only [kindHook]
+  obtain ⟨attrs2, ho1, ho2, ho3⟩ := openingHook_ok oas las nameN ta attrs1 (visit o env (.mk .list las attrs) .normal st).2 hl2 hl3
+  rw [show openingHook (.mk .jsxOpening oas [nameN, .mk .list las attrs1, ta]) (visit o env (.mk .list las attrs) .normal st).2
+      = (.mk .jsxOpening oas [nameN, .mk .list las attrs2, ta], (openingHook (.mk .jsxOpening oas [nameN, .mk .list las attrs1, ta]) (visit o env (.mk .list las attrs) .normal st).2).2)
+      from Prod.ext ho1 rfl]
+  have he := exprHook_plain o env .normal .jsxOpening oas [nameN, .mk .list las attrs2, ta] _ (Or.inr ⟨by decide, by decide⟩) ho3
+  exact ⟨attrs2, he.1, ho2, he.2⟩
+
+
+/-- the three children of an element, at any position of the element -/
+theorem visitKids_element (o : Opts) (env : Env) (hrt : o.resolveType = false) (pos : Pos) (oas las cas : List String)
+    (nameN ta cl : Node) (attrs children : List Node) (st : St)
+    (hn : Inert nameN = true) (hta : Inert ta = true) (hcl : Inert cl = true)
+    (iha : ∀ s, StOk s → PrepAttrs (visitKids o env .list .normal 0 attrs s).1 = true ∧ StOk (visitKids o env .list .normal 0 attrs s).2)
+    (ihk : ∀ s, StOk s → PrepKids (visitKids o env .list .childList 0 children s).1 = true ∧ StOk (visitKids o env .list .childList 0 children s).2)
+    (hst : StOk st) :
+    ∃ attrs' children' st', visitKids o env .jsxElement pos 0 [.mk .jsxOpening oas [nameN, .mk .list las attrs, ta], .mk .list cas children, cl] st
+        = ([.mk .jsxOpening oas [nameN, .mk .list las attrs', ta], .mk .list cas children', cl], st')
+      ∧ PrepAttrs attrs' = true ∧ PrepKids children' = true ∧ StOk st' := by
+  obtain ⟨attrs', ho1, ho2, ho3⟩ := visit_opening o env hrt oas las nameN ta attrs st hn hta iha hst
+  obtain ⟨children', hc1, hc2, hc3⟩ := visit_list_childList o env hrt cas children
+    (visit o env (.mk .jsxOpening oas [nameN, .mk .list las attrs, ta]) .normal st).2 (ihk _ ho3)
+  refine ⟨attrs', children', _, ?_, ho2, hc2, hc3⟩
+  simp only [visitKids]
+  have hp0 : kidPos .jsxElement pos 0 = .normal := by simp [kidPos]
+  have hp1 : kidPos .jsxElement pos (0 + 1) = .childList := by simp [kidPos]
+  have hp2 : kidPos .jsxElement pos (0 + 1 + 1) = .normal := by simp [kidPos]
+  rw [hp0, hp1, hp2]
+  rw [visit_inert o env cl .normal _ hcl]
+  rw [← ho1, ← hc1]
+
+/-- an element at an ordinary position is replaced by its lowering, which contains no JSX -/
+theorem visit_element_normal (o : Opts) (env : Env) (hrt : o.resolveType = false) (as oas las cas : List String)
+    (nameN ta cl : Node) (attrs children : List Node) (st : St)
+    (htag : TagOk nameN = true) (hn : Inert nameN = true) (hta : Inert ta = true) (hcl : Inert cl = true)
+    (iha : ∀ s, StOk s → PrepAttrs (visitKids o env .list .normal 0 attrs s).1 = true ∧ StOk (visitKids o env .list .normal 0 attrs s).2)
+    (ihk : ∀ s, StOk s → PrepKids (visitKids o env .list .childList 0 children s).1 = true ∧ StOk (visitKids o env .list .childList 0 children s).2)
+    (hst : StOk st) :
+    let n := Node.mk .jsxElement as [.mk .jsxOpening oas [nameN, .mk .list las attrs, ta], .mk .list cas children, cl]
+    NoJsx (visit o env n .normal st).1 = true ∧ StOk (visit o env n .normal st).2 := by
+  intro n
+  obtain ⟨attrs', children', st', hk, hpa, hpk, hst'⟩ := visitKids_element o env hrt .normal oas las cas nameN ta cl attrs children st hn hta hcl iha ihk hst
+  show NoJsx (visit o env (.mk .jsxElement as _) .normal st).1 = true ∧ _
+  rw [visit_generic o env .jsxElement as _ .normal st (by decide) (by decide), hk]
+  simp only [kindHook, exprHook]
+  have hprep : PrepEl (.mk .jsxElement as [.mk .jsxOpening oas [nameN, .mk .list las attrs', ta], .mk .list cas children', cl]) = true := by
+    simp [PrepEl, htag, hpa, hpk]
+  exact trElement_ok o env _ st' hprep rfl hst'
+
+/-- an element at a JSX position (a child, an attribute value) stays an element, in prepared form -/
+theorem visit_element_jsxKid (o : Opts) (env : Env) (hrt : o.resolveType = false) (as oas las cas : List String)
+    (nameN ta cl : Node) (attrs children : List Node) (st : St)
+    (htag : TagOk nameN = true) (hn : Inert nameN = true) (hta : Inert ta = true) (hcl : Inert cl = true)
+    (iha : ∀ s, StOk s → PrepAttrs (visitKids o env .list .normal 0 attrs s).1 = true ∧ StOk (visitKids o env .list .normal 0 attrs s).2)
+    (ihk : ∀ s, StOk s → PrepKids (visitKids o env .list .childList 0 children s).1 = true ∧ StOk (visitKids o env .list .childList 0 children s).2)
+    (hst : StOk st) :
+    let n := Node.mk .jsxElement as [.mk .jsxOpening oas [nameN, .mk .list las attrs, ta], .mk .list cas children, cl]
+    ∃ ks', (visit o env n .jsxKid st).1 = .mk .jsxElement as ks' ∧ PrepEl (.mk .jsxElement as ks') = true ∧ StOk (visit o env n .jsxKid st).2 := by
+  intro n
+  obtain ⟨attrs', children', st', hk, hpa, hpk, hst'⟩ := visitKids_element o env hrt .jsxKid oas las cas nameN ta cl attrs children st hn hta hcl iha ihk hst
+  show ∃ ks', (visit o env (.mk .jsxElement as _) .jsxKid st).1 = _ ∧ _
+  rw [visit_generic o env .jsxElement as _ .jsxKid st (by decide) (by decide), hk]
+  have hkh := kindHook_plain o env hrt .jsxElement as [.mk .jsxOpening oas [nameN, .mk .list las attrs', ta], .mk .list cas children', cl] st' (by decide) hst'
+  rw [show kindHook o env (.mk .jsxElement as [.mk .jsxOpening oas [nameN, .mk .list las attrs', ta], .mk .list cas children', cl]) st'
+      = (.mk .jsxElement as [.mk .jsxOpening oas [nameN, .mk .list las attrs', ta], .mk .list cas children', cl],
+         (kindHook o env (.mk .jsxElement as [.mk .jsxOpening oas [nameN, .mk .list las attrs', ta], .mk .list cas children', cl]) st').2)
+      from Prod.ext hkh.1 rfl]
+  have he := exprHook_plain o env .jsxKid .jsxElement as [.mk .jsxOpening oas [nameN, .mk .list las attrs', ta], .mk .list cas children', cl] _ (Or.inl (by decide)) hkh.2
+  exact ⟨_, he.1, by simp [PrepEl, htag, hpa, hpk], he.2⟩
+
+
+theorem visitKids_fragment (o : Opts) (env : Env) (hrt : o.resolveType = false) (pos : Pos) (cas : List String)
+    (op cl : Node) (children : List Node) (st : St) (hop : Inert op = true) (hcl : Inert cl = true)
+    (ihk : ∀ s, StOk s → PrepKids (visitKids o env .list .childList 0 children s).1 = true ∧ StOk (visitKids o env .list .childList 0 children s).2)
+    (hst : StOk st) :
+    ∃ children' st', visitKids o env .jsxFragment pos 0 [op, .mk .list cas children, cl] st = ([op, .mk .list cas children', cl], st')
+      ∧ PrepKids children' = true ∧ StOk st' := by
+  obtain ⟨children', hc1, hc2, hc3⟩ := visit_list_childList o env hrt cas children st (ihk _ hst)
+  refine ⟨children', _, ?_, hc2, hc3⟩
+  simp only [visitKids]
+  have hp0 : kidPos .jsxFragment pos 0 = .normal := by simp [kidPos]
+  have hp1 : kidPos .jsxFragment pos (0 + 1) = .childList := by simp [kidPos]
+  have hp2 : kidPos .jsxFragment pos (0 + 1 + 1) = .normal := by simp [kidPos]
+  rw [hp0, hp1, hp2, visit_inert o env op .normal st hop]
+  simp only
+  rw [visit_inert o env cl .normal _ hcl, ← hc1]
+
+theorem visit_fragment_normal (o : Opts) (env : Env) (hrt : o.resolveType = false) (as cas : List String)
+    (op cl : Node) (children : List Node) (st : St) (hop : Inert op = true) (hcl : Inert cl = true)
+    (ihk : ∀ s, StOk s → PrepKids (visitKids o env .list .childList 0 children s).1 = true ∧ StOk (visitKids o env .list .childList 0 children s).2)
+    (hst : StOk st) :
+    let n := Node.mk .jsxFragment as [op, .mk .list cas children, cl]
+    NoJsx (visit o env n .normal st).1 = true ∧ StOk (visit o env n .normal st).2 := by
+  intro n
+  obtain ⟨children', st', hk, hpk, hst'⟩ := visitKids_fragment o env hrt .normal cas op cl children st hop hcl ihk hst
+  show NoJsx (visit o env (.mk .jsxFragment as _) .normal st).1 = true ∧ _
+  rw [visit_generic o env .jsxFragment as _ .normal st (by decide) (by decide), hk]
+  simp only [kindHook, exprHook]
+  exact trFragment_ok o env _ st' (by simp [PrepEl, hpk]) rfl hst'
+
+theorem visit_fragment_jsxKid (o : Opts) (env : Env) (hrt : o.resolveType = false) (as cas : List String)
+    (op cl : Node) (children : List Node) (st : St) (hop : Inert op = true) (hcl : Inert cl = true)
+    (ihk : ∀ s, StOk s → PrepKids (visitKids o env .list .childList 0 children s).1 = true ∧ StOk (visitKids o env .list .childList 0 children s).2)
+    (hst : StOk st) :
+    let n := Node.mk .jsxFragment as [op, .mk .list cas children, cl]
+    ∃ ks', (visit o env n .jsxKid st).1 = .mk .jsxFragment as ks' ∧ PrepEl (.mk .jsxFragment as ks') = true ∧ StOk (visit o env n .jsxKid st).2 := by
+  intro n
+  obtain ⟨children', st', hk, hpk, hst'⟩ := visitKids_fragment o env hrt .jsxKid cas op cl children st hop hcl ihk hst
+  show ∃ ks', (visit o env (.mk .jsxFragment as _) .jsxKid st).1 = _ ∧ _
+  rw [visit_generic o env .jsxFragment as _ .jsxKid st (by decide) (by decide), hk]
+  have hkh := kindHook_plain o env hrt .jsxFragment as [op, .mk .list cas children', cl] st' (by decide) hst'
+  rw [show kindHook o env (.mk .jsxFragment as [op, .mk .list cas children', cl]) st'
+      = (.mk .jsxFragment as [op, .mk .list cas children', cl], (kindHook o env (.mk .jsxFragment as [op, .mk .list cas children', cl]) st').2)
+      from Prod.ext hkh.1 rfl]
+  have he := exprHook_plain o env .jsxKid .jsxFragment as [op, .mk .list cas children', cl] _ (Or.inl (by decide)) hkh.2
+  exact ⟨_, he.1, by simp [PrepEl, hpk], he.2⟩
+
+
+theorem WfE_element_shape (as : List String) (ks : List Node) (h : WfE (.mk .jsxElement as ks) = true) :
+    ∃ oas nameN las attrs ta cas children cl, ks = [.mk .jsxOpening oas [nameN, .mk .list las attrs, ta], .mk .list cas children, cl]
+      ∧ TagOk nameN = true ∧ Inert nameN = true ∧ Inert ta = true ∧ Inert cl = true ∧ WfAs attrs = true ∧ WfKs children = true := by
+  unfold WfE at h
+  split at h
+  · rename_i heq
+    injection heq with _ _ hks
+    subst hks
+    simp only [Bool.and_eq_true] at h
+    exact ⟨_, _, _, _, _, _, _, _, rfl, h.1.1.1.1.1, h.1.1.1.1.2, h.1.1.1.2, h.1.1.2, h.1.2, h.2⟩
+  · rename_i heq; injection heq with hk; cases hk
+  · rename_i heq
+    injection heq with hk _ _
+    subst hk
+    simp [isJsxSyntax] at h
+
+theorem WfE_fragment_shape (as : List String) (ks : List Node) (h : WfE (.mk .jsxFragment as ks) = true) :
+    ∃ op cas children cl, ks = [op, .mk .list cas children, cl] ∧ Inert op = true ∧ Inert cl = true ∧ WfKs children = true := by
+  unfold WfE at h
+  split at h
+  · rename_i heq; injection heq with hk; cases hk
+  · rename_i heq
+    injection heq with _ _ hks
+    subst hks
+    simp only [Bool.and_eq_true] at h
+    exact ⟨_, _, _, _, rfl, h.1.1, h.1.2, h.2⟩
+  · rename_i heq
+    injection heq with hk _ _
+    subst hk
+    simp [isJsxSyntax] at h
+
+theorem WfE_plain (k : K) (as : List String) (ks : List Node) (h : WfE (.mk k as ks) = true) (h1 : k ≠ .jsxElement) (h2 : k ≠ .jsxFragment) :
+    isJsxSyntax k = false ∧ WfEs ks = true := by
+  unfold WfE at h
+  split at h
+  · rename_i heq; injection heq with hk; exact absurd hk h1
+  · rename_i heq; injection heq with hk; exact absurd hk h2
+  · rename_i heq
+    injection heq with hk _ hks
+    subst hk hks
+    simpa using h
+
+theorem kidPos_normal (k : K) (j : Nat) (h : isJsxSyntax k = false) : kidPos k .normal j = .normal := by
+  unfold kidPos
+  split <;> simp_all [isJsxSyntax]
+
+/-- what the traversal leaves of an attribute value: a prepared element / fragment, or a strict value -/
+def PostV (v : Node) : Bool :=
+  match v with
+  | .mk .jsxElement as ks => PrepEl (.mk .jsxElement as ks)
+  | .mk .jsxFragment as ks => PrepEl (.mk .jsxFragment as ks)
+  | v => StrictValOk v
+
+theorem PostV_ValOk (v : Node) (h : PostV v = true) : ValOk v = true := by
+  unfold PostV at h
+  split at h
+  · simp [ValOk]
+  · simp [ValOk]
+  · unfold StrictValOk at h
+    unfold ValOk
+    split at h <;> simp_all
+
+theorem PrepAttr_of_PostV (as : List String) (name v : Node) (h : PostV v = true) : PrepAttr (.mk .jsxAttr as [name, v]) = true := by
+  unfold PrepAttr
+  split
+  · exact PostV_ValOk _ h
+  · unfold PostV at h
+    exact h
+
+
+theorem exprHook_NoJsx (o : Opts) (env : Env) (pos : Pos) (m : Node) (st : St) (hm : NoJsx m = true) (hst : StOk st) :
+    (exprHook o env pos m st).1 = m ∧ StOk (exprHook o env pos m st).2 := by
+  unfold exprHook
+  split
+  · exact ⟨rfl, hst⟩
+  · split
+    · simp [NoJsx, isJsxSyntax] at hm
+    · simp [NoJsx, isJsxSyntax] at hm
+    · exact ⟨rfl, ⟨hst.imports, hst.ton, hst.slotH, hst.vars, hst.consts⟩⟩
+    · exact ⟨rfl, hst⟩
+
+/-- a one-child wrapper (`{e}`, `{...e}` as a child or as an attribute) whose child sits at an ordinary position -/
+theorem visit_wrap1 (o : Opts) (env : Env) (hrt : o.resolveType = false) (k : K) (as : List String) (e : Node) (pos : Pos) (st : St)
+    (hk : k = .jsxExprContainer ∨ k = .jsxSpreadChild ∨ k = .spreadElement)
+    (ih : StOk (visit o env e .normal st).2) :
+    (visit o env (.mk k as [e]) pos st).1 = .mk k as [(visit o env e .normal st).1] ∧ StOk (visit o env (.mk k as [e]) pos st).2 := by
+  have hs : k ≠ .stmts := by rcases hk with rfl | rfl | rfl <;> decide
+  have ha : k ≠ .arrow := by rcases hk with rfl | rfl | rfl <;> decide
+  have ho : k ≠ .jsxOpening := by rcases hk with rfl | rfl | rfl <;> decide
+  have hne : k ≠ .jsxElement ∧ k ≠ .jsxFragment := by rcases hk with rfl | rfl | rfl <;> exact ⟨by decide, by decide⟩
+  have hp : kidPos k pos 0 = .normal := by rcases hk with rfl | rfl | rfl <;> simp [kidPos]
+  rw [visit_generic o env k as [e] pos st hs ha]
+  have hkids : visitKids o env k pos 0 [e] st = ([(visit o env e .normal st).1], (visit o env e .normal st).2) := by
+    simp only [visitKids, hp]
+  rw [hkids]
+  have hkh := kindHook_plain o env hrt k as [(visit o env e .normal st).1] (visit o env e .normal st).2 ho ih
+  rw [show kindHook o env (.mk k as [(visit o env e .normal st).1]) (visit o env e .normal st).2
+      = (.mk k as [(visit o env e .normal st).1], (kindHook o env (.mk k as [(visit o env e .normal st).1]) (visit o env e .normal st).2).2)
+      from Prod.ext hkh.1 rfl]
+  exact exprHook_plain o env pos k as _ _ (Or.inr hne) hkh.2
+
+theorem visit_arrow_nil (o : Opts) (env : Env) (as : List String) (pos : Pos) (st : St) :
+    visit o env (.mk .arrow as []) pos st = exprHook o env pos (kindHook o env (.mk .arrow as []) st).1 (kindHook o env (.mk .arrow as []) st).2 := by
+  unfold visit
+  simp [visitKids]
+
+/-! ### THE TRAVERSAL THEOREM -/
+
+mutual
+/-- **At an ordinary position the traversal leaves no JSX behind** — for every well-formed tree (JSX nested in
+    expressions nested in JSX … to any depth), every option set with resolveType off, every state without JSX. -/
+theorem visit_NoJsx (o : Opts) (env : Env) (hrt : o.resolveType = false) : ∀ (n : Node) (st : St), WfE n = true → StOk st →
+    NoJsx (visit o env n .normal st).1 = true ∧ StOk (visit o env n .normal st).2
+  | .mk k as ks, st, hw, hst => by
+    by_cases hke : k = .jsxElement
+    · subst hke
+      obtain ⟨oas, nameN, las, attrs, ta, cas, children, cl, hks, htag, hn, hta, hcl, hwa, hwk⟩ := WfE_element_shape as ks hw
+      subst hks
+      have hs1 : sizeOf attrs < sizeOf (Node.mk K.jsxElement as [.mk .jsxOpening oas [nameN, .mk .list las attrs, ta], .mk .list cas children, cl]) := by
+        simp; omega
+      have hs2 : sizeOf children < sizeOf (Node.mk K.jsxElement as [.mk .jsxOpening oas [nameN, .mk .list las attrs, ta], .mk .list cas children, cl]) := by
+        simp; omega
+      exact visit_element_normal o env hrt as oas las cas nameN ta cl attrs children st htag hn hta hcl
+        (fun s hs => visitAttrs_Prep o env hrt attrs 0 s hwa hs) (fun s hs => visitChildren_Prep o env hrt children 0 s hwk hs) hst
+    · by_cases hkf : k = .jsxFragment
+      · subst hkf
+        obtain ⟨op, cas, children, cl, hks, hop, hcl, hwk⟩ := WfE_fragment_shape as ks hw
+        subst hks
+        have hs2 : sizeOf children < sizeOf (Node.mk K.jsxFragment as [op, .mk .list cas children, cl]) := by simp; omega
+        exact visit_fragment_normal o env hrt as cas op cl children st hop hcl
+          (fun s hs => visitChildren_Prep o env hrt children 0 s hwk hs) hst
+      · obtain ⟨hnj, hwks⟩ := WfE_plain k as ks hw hke hkf
+        have hkp : ∀ j, kidPos k .normal j = .normal := fun j => kidPos_normal k j hnj
+        have hsz : sizeOf ks < sizeOf (Node.mk k as ks) := by simp; omega
+        by_cases hks : k = .stmts
+        · -- a statement list: what was created inside is declared inside
+          subst hks
+          have ih := visitKids_NoJsx o env hrt ks .stmts 0 st.clearPending hwks hkp (clearPending_ok st hst)
+          have hd := drainInto_ok _ _ ih.1 ih.2
+          simp only [visit]
+          exact ⟨by simpa [NoJsx, isJsxSyntax] using hd.1, restore_ok _ _ _ hd.2 hst.consts hst.vars⟩
+        · by_cases hka : k = .arrow
+          · subst hka
+            cases ks with
+            | nil =>
+              rw [visit_arrow_nil]
+              have hkh := kindHook_plain o env hrt .arrow as [] st (by decide) hst
+              rw [show kindHook o env (.mk .arrow as []) st = (.mk .arrow as [], (kindHook o env (.mk .arrow as []) st).2) from Prod.ext hkh.1 rfl]
+              have he := exprHook_NoJsx o env .normal (.mk .arrow as []) _ (by simp [NoJsx, NoJsxL, isJsxSyntax]) hkh.2
+              exact ⟨by rw [he.1]; simp [NoJsx, NoJsxL, isJsxSyntax], he.2⟩
+            | cons params rest =>
+              simp only [WfEs, Bool.and_eq_true] at hwks
+              have hsp : sizeOf params < sizeOf (Node.mk K.arrow as (params :: rest)) := by simp; omega
+              have hsr : sizeOf rest < sizeOf (Node.mk K.arrow as (params :: rest)) := by simp; omega
+              have hp0 : kidPos .arrow .normal 0 = .normal := hkp 0
+              have h1 := visit_NoJsx o env hrt params st hwks.1 hst
+              have h2 := visitKids_NoJsx o env hrt rest .arrow 1 (visit o env params .normal st).2.clearPending hwks.2 hkp
+                (clearPending_ok _ h1.2)
+              simp only [visit, hp0]
+              have hnode : NoJsx (Node.mk .arrow as ((visit o env params .normal st).1 ::
+                  (visitKids o env .arrow .normal 1 rest (visit o env params .normal st).2.clearPending).1)) = true := by
+                simp [NoJsx, isJsxSyntax, h1.1, h2.1]
+              have hd := drainArrow_ok _ _ hnode h2.2
+              have hrest := restore_ok (drainArrow (Node.mk .arrow as ((visit o env params .normal st).1 ::
+                  (visitKids o env .arrow .normal 1 rest (visit o env params .normal st).2.clearPending).1))
+                  (visitKids o env .arrow .normal 1 rest (visit o env params .normal st).2.clearPending).2).2
+                ((visit o env params .normal st).2.injectingConsts ++ (drainArrow (Node.mk .arrow as ((visit o env params .normal st).1 ::
+                  (visitKids o env .arrow .normal 1 rest (visit o env params .normal st).2.clearPending).1))
+                  (visitKids o env .arrow .normal 1 rest (visit o env params .normal st).2.clearPending).2).2.injectingConsts)
+                ((visit o env params .normal st).2.injectingVars ++ (drainArrow (Node.mk .arrow as ((visit o env params .normal st).1 ::
+                  (visitKids o env .arrow .normal 1 rest (visit o env params .normal st).2.clearPending).1))
+                  (visitKids o env .arrow .normal 1 rest (visit o env params .normal st).2.clearPending).2).2.injectingVars)
+                hd.2 (by simp [h1.2.consts, hd.2.consts]) (by simp [h1.2.vars, hd.2.vars])
+              have he := exprHook_NoJsx o env .normal _ _ hd.1 hrest
+              exact ⟨by rw [he.1]; exact hd.1, he.2⟩
+          · -- any other node: its children, then the hooks (which leave it alone)
+            have ih := visitKids_NoJsx o env hrt ks k 0 st hwks hkp hst
+            rw [visit_generic o env k as ks .normal st hks hka]
+            have hko : k ≠ .jsxOpening := by intro h; subst h; simp [isJsxSyntax] at hnj
+            have hkh := kindHook_plain o env hrt k as (visitKids o env k .normal 0 ks st).1 (visitKids o env k .normal 0 ks st).2 hko ih.2
+            rw [show kindHook o env (.mk k as (visitKids o env k .normal 0 ks st).1) (visitKids o env k .normal 0 ks st).2
+                = (.mk k as (visitKids o env k .normal 0 ks st).1, (kindHook o env (.mk k as (visitKids o env k .normal 0 ks st).1) (visitKids o env k .normal 0 ks st).2).2)
+                from Prod.ext hkh.1 rfl]
+            have he := exprHook_plain o env .normal k as (visitKids o env k .normal 0 ks st).1 _ (Or.inr ⟨hke, hkf⟩) hkh.2
+            rw [show exprHook o env .normal (.mk k as (visitKids o env k .normal 0 ks st).1) (kindHook o env (.mk k as (visitKids o env k .normal 0 ks st).1) (visitKids o env k .normal 0 ks st).2).2
+                = (.mk k as (visitKids o env k .normal 0 ks st).1, (exprHook o env .normal (.mk k as (visitKids o env k .normal 0 ks st).1) (kindHook o env (.mk k as (visitKids o env k .normal 0 ks st).1) (visitKids o env k .normal 0 ks st).2).2).2)
+                from Prod.ext he.1 rfl]
+            exact ⟨by simp [NoJsx, hnj, ih.1], he.2⟩
+termination_by n => sizeOf n
+theorem visitKids_NoJsx (o : Opts) (env : Env) (hrt : o.resolveType = false) : ∀ (ks : List Node) (k : K) (i : Nat) (st : St),
+    WfEs ks = true → (∀ j, kidPos k .normal j = .normal) → StOk st →
+    NoJsxL (visitKids o env k .normal i ks st).1 = true ∧ StOk (visitKids o env k .normal i ks st).2
+  | [], _, _, st, _, _, hst => by simp [visitKids, hst]
+  | c :: cs, k, i, st, hw, hk, hst => by
+    simp only [WfEs, Bool.and_eq_true] at hw
+    have h1 := visit_NoJsx o env hrt c st hw.1 hst
+    have h2 := visitKids_NoJsx o env hrt cs k (i + 1) (visit o env c .normal st).2 hw.2 hk h1.2
+    simp only [visitKids, hk]
+    exact ⟨by simp [h1.1, h2.1], h2.2⟩
+termination_by ks => sizeOf ks
+theorem visitAttrs_Prep (o : Opts) (env : Env) (hrt : o.resolveType = false) : ∀ (attrs : List Node) (i : Nat) (st : St),
+    WfAs attrs = true → StOk st →
+    PrepAttrs (visitKids o env .list .normal i attrs st).1 = true ∧ StOk (visitKids o env .list .normal i attrs st).2
+  | [], _, st, _, hst => by simp [visitKids, PrepAttrs, hst]
+  | a :: rest, i, st, hw, hst => by
+    simp only [WfAs, Bool.and_eq_true] at hw
+    have hpi : kidPos .list .normal i = .normal := by simp [kidPos]
+    simp only [visitKids, hpi]
+    -- the attribute itself
+    have ha : PrepAttr (visit o env a .normal st).1 = true ∧ StOk (visit o env a .normal st).2 := by
+      have hwa := hw.1
+      unfold WfA at hwa
+      split at hwa
+      · -- name = value
+        rename_i as name v
+        simp only [Bool.and_eq_true] at hwa
+        have hsv : sizeOf v < sizeOf (Node.mk K.jsxAttr as [name, v] :: rest) := by simp; omega
+        have hV := visitValue_Post o env hrt v st hwa.2 hst
+        rw [visit_generic o env .jsxAttr as [name, v] .normal st (by decide) (by decide)]
+        have hkids : visitKids o env .jsxAttr .normal 0 [name, v] st = ([name, (visit o env v .jsxKid st).1], (visit o env v .jsxKid st).2) := by
+          have hp0 : kidPos .jsxAttr .normal 0 = .normal := by simp [kidPos]
+          have hp1 : kidPos .jsxAttr .normal (0 + 1) = .jsxKid := by simp [kidPos]
+          simp only [visitKids, hp0, hp1, visit_inert o env name .normal st hwa.1]
+        rw [hkids]
+        have hkh := kindHook_plain o env hrt .jsxAttr as [name, (visit o env v .jsxKid st).1] (visit o env v .jsxKid st).2 (by decide) hV.2
+        rw [show kindHook o env (.mk .jsxAttr as [name, (visit o env v .jsxKid st).1]) (visit o env v .jsxKid st).2
+            = (.mk .jsxAttr as [name, (visit o env v .jsxKid st).1], (kindHook o env (.mk .jsxAttr as [name, (visit o env v .jsxKid st).1]) (visit o env v .jsxKid st).2).2)
+            from Prod.ext hkh.1 rfl]
+        have he := exprHook_plain o env .normal .jsxAttr as [name, (visit o env v .jsxKid st).1] _ (Or.inr ⟨by decide, by decide⟩) hkh.2
+        exact ⟨by rw [he.1]; exact PrepAttr_of_PostV as name _ hV.1, he.2⟩
+      · -- a spread
+        rename_i as e
+        have hse : sizeOf e < sizeOf (Node.mk K.spreadElement as [e] :: rest) := by simp; omega
+        have hE := visit_NoJsx o env hrt e st hwa hst
+        have hw1 := visit_wrap1 o env hrt .spreadElement as e .normal st (Or.inr (Or.inr rfl)) hE.2
+        exact ⟨by rw [hw1.1]; simpa [PrepAttr] using hE.1, hw1.2⟩
+      · cases hwa
+    have hR := visitAttrs_Prep o env hrt rest (i + 1) (visit o env a .normal st).2 hw.2 ha.2
+    exact ⟨by simp [PrepAttrs, ha.1, hR.1], hR.2⟩
+termination_by attrs => sizeOf attrs
+theorem visitValue_Post (o : Opts) (env : Env) (hrt : o.resolveType = false) : ∀ (v : Node) (st : St), WfV v = true → StOk st →
+    PostV (visit o env v .jsxKid st).1 = true ∧ StOk (visit o env v .jsxKid st).2
+  | .mk k as ks, st, hw, hst => by
+    unfold WfV at hw
+    split at hw
+    · rename_i heq
+      rw [heq, visit_inert o env _ .jsxKid st (by simp [Inert, InertL, inertKind])]
+      exact ⟨by simp [PostV, StrictValOk], hst⟩
+    · rename_i heq
+      rw [heq, visit_inert o env _ .jsxKid st (by simp [Inert, InertL, inertKind])]
+      exact ⟨by simp [PostV, StrictValOk], hst⟩
+    · rename_i as' e heq
+      have hse : sizeOf e < 1 + sizeOf k + sizeOf as + sizeOf ks := by
+        have := congrArg sizeOf heq; simp at this; omega
+      have hE := visit_NoJsx o env hrt e st hw hst
+      have hw1 := visit_wrap1 o env hrt .jsxExprContainer as' e .jsxKid st (Or.inl rfl) hE.2
+      rw [heq]
+      exact ⟨by rw [hw1.1]; simp [PostV, StrictValOk, hE.1], hw1.2⟩
+    · rename_i as' ks' heq
+      obtain ⟨oas, nameN, las, attrs, ta, cas, children, cl, hks, htag, hn, hta, hcl, hwa, hwk⟩ := WfE_element_shape as' ks' hw
+      subst hks
+      have hs1 : sizeOf attrs < 1 + sizeOf k + sizeOf as + sizeOf ks := by
+        have := congrArg sizeOf heq; simp at this; omega
+      have hs2 : sizeOf children < 1 + sizeOf k + sizeOf as + sizeOf ks := by
+        have := congrArg sizeOf heq; simp at this; omega
+      rw [heq]
+      obtain ⟨ks2, h1, h2, h3⟩ := visit_element_jsxKid o env hrt as' oas las cas nameN ta cl attrs children st htag hn hta hcl
+        (fun s hs => visitAttrs_Prep o env hrt attrs 0 s hwa hs) (fun s hs => visitChildren_Prep o env hrt children 0 s hwk hs) hst
+      exact ⟨by rw [h1]; simpa [PostV] using h2, h3⟩
+    · rename_i as' ks' heq
+      obtain ⟨op, cas, children, cl, hks, hop, hcl, hwk⟩ := WfE_fragment_shape as' ks' hw
+      subst hks
+      have hs2 : sizeOf children < 1 + sizeOf k + sizeOf as + sizeOf ks := by
+        have := congrArg sizeOf heq; simp at this; omega
+      rw [heq]
+      obtain ⟨ks2, h1, h2, h3⟩ := visit_fragment_jsxKid o env hrt as' cas op cl children st hop hcl
+        (fun s hs => visitChildren_Prep o env hrt children 0 s hwk hs) hst
+      exact ⟨by rw [h1]; simpa [PostV] using h2, h3⟩
+    · cases hw
+termination_by v => sizeOf v
+theorem visitChildren_Prep (o : Opts) (env : Env) (hrt : o.resolveType = false) : ∀ (cs : List Node) (i : Nat) (st : St),
+    WfKs cs = true → StOk st →
+    PrepKids (visitKids o env .list .childList i cs st).1 = true ∧ StOk (visitKids o env .list .childList i cs st).2
+  | [], _, st, _, hst => by simp [visitKids, PrepKids, hst]
+  | c :: rest, i, st, hw, hst => by
+    simp only [WfKs, Bool.and_eq_true] at hw
+    have hpi : kidPos .list .childList i = .jsxKid := by simp [kidPos]
+    simp only [visitKids, hpi]
+    have hc : PrepKid (visit o env c .jsxKid st).1 = true ∧ StOk (visit o env c .jsxKid st).2 := by
+      have hwc := hw.1
+      unfold WfK at hwc
+      split at hwc
+      · rw [visit_inert o env _ .jsxKid st (by simp [Inert, InertL, inertKind])]
+        exact ⟨by simp [PrepKid], hst⟩
+      · rename_i as e
+        split at hwc
+        · rw [visit_inert o env _ .jsxKid st (by simp [Inert, InertL, inertKind])]
+          exact ⟨by simp [PrepKid], hst⟩
+        · rename_i hne
+          have hse : sizeOf e < sizeOf (Node.mk K.jsxExprContainer as [e] :: rest) := by simp; omega
+          have hE := visit_NoJsx o env hrt e st hwc hst
+          have hw1 := visit_wrap1 o env hrt .jsxExprContainer as e .jsxKid st (Or.inl rfl) hE.2
+          refine ⟨?_, hw1.2⟩
+          rw [hw1.1]
+          unfold PrepKid
+          split
+          · rfl
+          · exact hE.1
+      · rename_i as e
+        have hse : sizeOf e < sizeOf (Node.mk K.jsxSpreadChild as [e] :: rest) := by simp; omega
+        have hE := visit_NoJsx o env hrt e st hwc hst
+        have hw1 := visit_wrap1 o env hrt .jsxSpreadChild as e .jsxKid st (Or.inr (Or.inl rfl)) hE.2
+        exact ⟨by rw [hw1.1]; simpa [PrepKid] using hE.1, hw1.2⟩
+      · rename_i as' ks'
+        obtain ⟨oas, nameN, las, attrs, ta, cas, children, cl, hks, htag, hn, hta, hcl, hwa, hwk⟩ := WfE_element_shape as' ks' hwc
+        subst hks
+        have hs1 : sizeOf attrs < sizeOf (Node.mk K.jsxElement as' [.mk .jsxOpening oas [nameN, .mk .list las attrs, ta], .mk .list cas children, cl] :: rest) := by simp; omega
+        have hs2 : sizeOf children < sizeOf (Node.mk K.jsxElement as' [.mk .jsxOpening oas [nameN, .mk .list las attrs, ta], .mk .list cas children, cl] :: rest) := by simp; omega
+        obtain ⟨ks2, h1, h2, h3⟩ := visit_element_jsxKid o env hrt as' oas las cas nameN ta cl attrs children st htag hn hta hcl
+          (fun s hs => visitAttrs_Prep o env hrt attrs 0 s hwa hs) (fun s hs => visitChildren_Prep o env hrt children 0 s hwk hs) hst
+        exact ⟨by rw [h1]; simpa [PrepKid] using h2, h3⟩
+      · rename_i as' ks'
+        obtain ⟨op, cas, children, cl, hks, hop, hcl, hwk⟩ := WfE_fragment_shape as' ks' hwc
+        subst hks
+        have hs2 : sizeOf children < sizeOf (Node.mk K.jsxFragment as' [op, .mk .list cas children, cl] :: rest) := by simp; omega
+        obtain ⟨ks2, h1, h2, h3⟩ := visit_fragment_jsxKid o env hrt as' cas op cl children st hop hcl
+          (fun s hs => visitChildren_Prep o env hrt children 0 s hwk hs) hst
+        exact ⟨by rw [h1]; simpa [PrepKid] using h2, h3⟩
+      · cases hwc
+    have hR := visitChildren_Prep o env hrt rest (i + 1) (visit o env c .jsxKid st).2 hw.2 hc.2
+    exact ⟨by simp [PrepKids, hc.1, hR.1], hR.2⟩
+termination_by cs => sizeOf cs
+end
+
+
+/-! ### module level -/
+
+theorem scanPragmas_ok (env : Env) : StOk (scanPragmas env {}) := by
+  have hbase : StOk ({} : St) := ⟨by simp, rfl, rfl, rfl, rfl⟩
+  unfold scanPragmas
+  split
+  · exact hbase
+  · have : ∀ (cs : List (List String)) (st : St), StOk st →
+        StOk (cs.foldl (fun st cs => match pragmaOfComments cs with | some p => { st with pragma := some p } | none => st) st) := by
+      intro cs
+      induction cs with
+      | nil => intro st h; exact h
+      | cons c rest ih =>
+        intro st h
+        simp only [List.foldl]
+        apply ih
+        split
+        · exact ⟨h.imports, h.ton, h.slotH, h.vars, h.consts⟩
+        · exact h
+    exact this _ _ hbase
+
+theorem buildSlotHelper_NoJsx (h iv : Node) (st : St) (hh : NoJsx h = true) (hiv : NoJsx iv = true) :
+    NoJsx (buildSlotHelper h iv st).1 = true := by
+  simp [buildSlotHelper, St.fresh, NoJsx, NoJsxL, isJsxSyntax, hh, hiv, nj_bindingIdent]
+
+theorem buildSlotHelper_ok (h iv : Node) (st : St) (hst : StOk st) : StOk (buildSlotHelper h iv st).2 := by
+  simp only [buildSlotHelper, St.fresh]
+  exact ⟨hst.imports, hst.ton, hst.slotH, hst.vars, hst.consts⟩
+
+theorem importsDecl_NoJsx (st : St) (hst : StOk st) :
+    NoJsx (nImportDecl (st.imports.map fun p => .mk .importSpec ["false"] [p.2, nQuoteIdent p.1]) "vue") = true := by
+  simp only [nImportDecl, NoJsx, isJsxSyntax, Bool.not_false, Bool.true_and, nj_cons, nj_list, nj_str, nj_none, nj_nil, Bool.and_true]
+  apply NoJsxL_map
+  intro p hp
+  simp [NoJsx, NoJsxL, isJsxSyntax, hst.imports p hp]
+
+theorem tonDecl_NoJsx (h : Node) (hh : NoJsx h = true) :
+    NoJsx (nImportDecl [.mk .importDefault [] [h]] "@vue/babel-helper-vue-transform-on") = true := by
+  simp [nImportDecl, NoJsx, NoJsxL, isJsxSyntax, hh]
+
+theorem finishModule_NoJsx (items : List Node) (st : St) (hi : NoJsxL items = true) (hst : StOk st) :
+    NoJsxL (finishModule items st).1 = true := by
+  unfold finishModule
+  have hd := drainInto_ok items st hi hst
+  generalize drainInto items st = r at hd
+  obtain ⟨items1, st1⟩ := r
+  simp only at hd ⊢
+  cases hs : st1.slotHelper with
+  | none =>
+    simp only
+    have himp := importsDecl_NoJsx st1 hd.2
+    cases ht : st1.transformOnHelper with
+    | none =>
+      simp only
+      split
+      · simp [himp, hd.1]
+      · exact hd.1
+    | some h' =>
+      have hh' : NoJsx h' = true := by have := hd.2.ton; rw [ht] at this; exact this
+      simp only
+      split
+      · simp [himp, hd.1, tonDecl_NoJsx h' hh']
+      · simp [hd.1, tonDecl_NoJsx h' hh']
+  | some h =>
+    have hh : NoJsx h = true := by have := hd.2.slotH; rw [hs] at this; exact this
+    have hiv := importFromVue_ok st1 "isVNode" hd.2
+    have hb := buildSlotHelper_NoJsx h (st1.importFromVue "isVNode").1 (st1.importFromVue "isVNode").2 hh hiv.1
+    have hst2 := buildSlotHelper_ok h (st1.importFromVue "isVNode").1 (st1.importFromVue "isVNode").2 hiv.2
+    simp only
+    have himp := importsDecl_NoJsx _ hst2
+    cases ht : (buildSlotHelper h (st1.importFromVue "isVNode").1 (st1.importFromVue "isVNode").2).2.transformOnHelper with
+    | none =>
+      simp only
+      split
+      · simp [himp, hd.1, hb]
+      · simp [hd.1, hb]
+    | some h' =>
+      have hh' : NoJsx h' = true := by have := hst2.ton; rw [ht] at this; exact this
+      simp only
+      split
+      · simp [himp, hd.1, hb, tonDecl_NoJsx h' hh']
+      · simp [hd.1, hb, tonDecl_NoJsx h' hh']
+
+/-- **C07 for whole modules** (resolveType off): a well-formed module — JSX anywhere, nested to any depth, in any
+    statement, function, class, arrow or attribute position — is transformed into a tree that contains NO JSX syntax. -/
+theorem C07_module_NoJsx (o : Opts) (env : Env) (hrt : o.resolveType = false) (as las : List String) (items rest : List Node)
+    (hi : WfEs items = true) (hr : WfEs rest = true) :
+    NoJsx (transformModule o env (.mk .module as (.mk .list las items :: rest))).1 = true := by
+  simp only [transformModule, hrt, Bool.false_eq_true, if_false]
+  have h0 := scanPragmas_ok env
+  have h1 := visitKids_NoJsx o env hrt items .list 0 (scanPragmas env {}) hi (fun j => by simp [kidPos]) h0
+  have h2 := visitKids_NoJsx o env hrt rest .module 1 _ hr (fun j => by simp [kidPos]) h1.2
+  have h3 := finishModule_NoJsx _ _ h1.1 h2.2
+  simp [NoJsx, isJsxSyntax, h3, h2.1]
+
+
+/-- example builder: `<tag attrs>kids</tag>` -/
+def exEl (tag : String) (attrs kids : List Node) : Node :=
+  .mk .jsxElement [] [.mk .jsxOpening [] [nIdent tag "u", nList attrs, nNone], nList kids, nNone]
+
+-- non-vacuity: `const v = <Comp a=<b/> {...x}>{f(<i/>)}<></></Comp>` is well-formed
+example :
+    WfEs [.mk .varDecl ["const", "false"] [nList [.mk .declarator ["false"] [nIdent "v" "b2",
+      exEl "Comp" [.mk .jsxAttr [] [nIdentName "a", exEl "b" [] []], .mk .spreadElement [] [nIdent "x" "u"]]
+        [.mk .jsxExprContainer [] [nCall (nIdent "f" "u") [nArg (exEl "i" [] [])]],
+         .mk .jsxFragment [] [nNone, nList [], nNone]]]]]] = true := by
+  simp [WfEs, WfE, WfAs, WfA, WfV, WfKs, WfK, exEl, nList, nIdent, nIdentName, nNone, nCall, nArg, TagOk, Inert, InertL, inertKind, isJsxSyntax]
 
 end VueJsx
